@@ -8,7 +8,7 @@ property's check (and related checks when the own check misses), undo it; (3) st
 """
 import json, os, subprocess, sys, shutil, re, time
 ENV = dict(os.environ, GOFLAGS="-mod=mod", GOPROXY="off", GOSUMDB="off", GOTOOLCHAIN="local")
-REL = {"x/aol/types": ["C16", "C18", "C08", "C01"], "x/aol/keeper": ["C01", "C02", "C13", "C17", "C08"], "x/aol": ["C08"],
+REL = {"x/aol/types": ["C16", "C18", "C08", "C01"], "x/aol/keeper": ["C01", "C02", "C13", "C08", "C17"], "x/aol": ["C08"],
        "x/did/types": ["C16", "C17", "C11", "C03", "C08"], "x/did/keeper": ["C03", "C04", "C05", "C11", "C08"], "x/did": ["C08"],
        "x/pnft/types": ["C12", "C06", "C08", "C16"], "x/pnft/keeper": ["C06", "C12", "C08"], "x/pnft": ["C08"],
        "x/burn": ["C07"], "types/compkey": ["C18", "C01"], "x/did/client/crypto": ["C17", "C20"]}
